@@ -164,6 +164,11 @@ class Observer:
         out = json.loads(self.I.drv.ask(json.dumps(req, separators=(",", ":"))))
         c["rwcheck"] = c.get("rwcheck", 0) + 1
         c["rwcheck:" + op] = c.get("rwcheck:" + op, 0) + 1
+        if not out.get("match") and "outside the model" in str(out.get("why", "")):
+            # the Lean shape does not cover this instance (e.g. an `inline` actual that is neither a control expression,
+            # a buffer nor a window): not a correspondence break — counted, covered by the differential execution only
+            c["rwcheck-outside-model:" + op] = c.get("rwcheck-outside-model:" + op, 0) + 1
+            return
         if not out.get("match"):
             sit = None
             try:
